@@ -671,6 +671,28 @@ def scenarios(rng, ctx0=5000):
             s.read('u', y1); s.read('u', y2)
             for i in sorted(set(A) | set(B)): s.ucomp(y1, i)
         done(s)
+    # S17: members of an INFINITE-dof ensemble correlated with dependent inputs OUTSIDE the ensemble (allowed because every dof
+    # is infinite), declared before and after it, and among themselves; variance, covariance, correlation and dof of sums that
+    # mix members and outsiders (a shortcut "an ensemble member is only correlated with the other members" is wrong here)
+    for variant in range(3):
+        s = new()
+        s.ureal(_rv(rng), _rv(rng, .1, 1), inf, indep=False)                                   # 0: outsider declared first
+        s.multiple([_rv(rng) for _ in range(3)], [_rv(rng, .1, 1) for _ in range(3)], inf)       # 1..3: infinite-dof ensemble
+        s.ureal(_rv(rng), _rv(rng, .1, 1), inf, indep=False)                                   # 4: outsider declared later
+        s.ureal(_rv(rng), _rv(rng, .1, 1), inf, indep=True)                                    # 5
+        s.set_corr(round(rng.uniform(.2, .8), 2), 1, 4); s.set_corr(round(rng.uniform(-.8, -.2), 2), 0, 2)
+        if variant >= 1: s.set_corr(round(rng.uniform(.2, .6), 2), 1, 2)
+        if variant == 2: s.set_corr(round(rng.uniform(.2, .6), 2), 3, 4); s.set_corr(0.3, 0, 4)
+        s.bin('add', ('ref', 1), ('ref', 4)); y1 = len(s.slots) - 1                            # member first, then outsider
+        s.bin('add', ('ref', 0), ('ref', 2)); y2 = len(s.slots) - 1                            # outsider first, then member
+        s.bin('mul', ('num', _rv(rng)), ('ref', 3)); t = len(s.slots) - 1
+        s.bin('add', ('ref', y1), ('ref', t)); s.bin('add', ('ref', len(s.slots) - 1), ('ref', y2)); y3 = len(s.slots) - 1
+        s.bin('sub', ('ref', y3), ('ref', 5)); y4 = len(s.slots) - 1
+        for y in (y1, y2, y3, y4):
+            s.read('v', y); s.read('u', y); s.read('df', y); s.get_cov(y, y)
+        for a in (y1, y2, y3):
+            for b in (y2, y3, y4): s.get_cov(a, b); s.get_corr(a, b)
+        done(s)
     # S13: reporting calls (budget / components, with and without intermediates) between operations: they must not change
     # any number -- the operands are used again afterwards (merges with numbers having other influences) and re-budgeted
     for variant in range(2):
